@@ -6,5 +6,10 @@ CONSTANTS
   Frames <- McFrames
   MaxFrames = 3
   CrcCounted = FALSE
+  PayFrames = {}
+  PayHeads = {}
+  TwiceLens = {}
+  PassThrough = FALSE
+  LenMod = 0
 INVARIANTS DecodeExact
 CHECK_DEADLOCK FALSE
